@@ -49,6 +49,12 @@ def run(prop, report, coverage):
         ires = C.pool_map(c15.shard, [(s, m) for s in objsym.systems() for m in (False, True)])
         o_bad += [(oid, d) for r in ires for oid, d in r[1] if "/inplace/" in oid]
         o_n += sum(r[0] for r in ires)
+    if prop in ("C01", "C02"):
+        # the named conversions (to_<system>, to_VectorND, like) with their keyword paths: the C04 lattice on symbolic values
+        from . import c04
+        cres = C.pool_map(c04.shard, [(s, m) for s in objsym.systems() for m in (False, True)])
+        o_bad += [(oid, d) for r in cres for oid, d in r[1]]
+        o_n += sum(r[0] for r in cres)
     # ---- Numba object backend: static contract on the glue (kernel receives the coordinates of the signature it was looked up for)
     import os
     from .. import numbaglue
@@ -126,6 +132,9 @@ def replay(prop, rp, path):
             return 1
         print("obligation holds on this tree")
         return 0
+    if kind == "object" and any(x in oid for x in ("/conversion-glue/", "/imputed/", "/roundtrip", "/like", "/to_Vector", "/projection", "/embedding")) and "C05/" not in oid:
+        from . import c04
+        return c04.replay(prop, rp2, path)
     if kind == "object" and "/inplace/" in oid:
         from . import c15
         return c15.replay(prop, rp2, path)
